@@ -10,6 +10,7 @@ import (
 	"go.minekube.com/common/minecraft/component/codec"
 	"go.minekube.com/common/minecraft/component/codec/legacy"
 	"go.minekube.com/common/minecraft/key"
+	"go.minekube.com/gate/pkg/command"
 	"go.minekube.com/gate/pkg/edition/java/proto/packet/plugin"
 	"go.minekube.com/gate/pkg/edition/java/proto/util"
 	"go.minekube.com/gate/pkg/edition/java/proto/version"
@@ -64,6 +65,7 @@ type (
 		RemoteAddr() net.Addr
 		Disconnect(reason component.Component)
 		Protocol() proto.Protocol
+		SendMessage(msg component.Component, opts ...command.MessageOption) error
 	}
 	Server interface {
 		Name() string
@@ -353,8 +355,9 @@ func (r *bungeeCordMessageResponder) processMessage0(in io.Reader, decoder codec
 	}
 	if target == "ALL" {
 		r.BroadcastMessage(comp)
-	} else {
-		r.Server(target).BroadcastMessage(comp)
+	} else if player := r.PlayerByName(target); player != nil {
+		// The target of Message/MessageRaw is a player name.
+		_ = player.SendMessage(comp)
 	}
 }
 func (r *bungeeCordMessageResponder) processMessage(in io.Reader) {
